@@ -506,6 +506,23 @@ PYFLOAT_REPRS = ["1e-05", "1e+20", "2.5", "0.1", "1.5e-10", "1e16", "3.0", "1234
 
 
 def sympy_strings(rng, n):
+    """sympy can hang inside a single big-number operation while ordering / printing an expression (no signal handler runs
+    there), so the strings are produced in a child process that is killed after a wall-clock limit"""
+    import multiprocessing as mp
+    ctx = mp.get_context("fork")
+    for attempt in range(4):
+        sub = random.Random(rng.randrange(2 ** 31))
+        pool = ctx.Pool(1)
+        try:
+            return pool.apply_async(_sympy_strings_child, (sub, n)).get(timeout=90)
+        except mp.TimeoutError:
+            continue
+        finally:
+            pool.terminate()
+    return []
+
+
+def _sympy_strings_child(rng, n):
     out = []
     tries = 0
     while len(out) < n and tries < 3 * n:
